@@ -23,7 +23,7 @@ RULE = ("keys whose per-locale values differ in kind and in variable/component s
 def model_union(project, ptable, ns, path, locales):
     vars_, comps, counts = {}, set(), {}
     per = []
-    resolver = model.Resolver(project, ptable, null_target="default")
+    resolver = model.Resolver(project, ptable)
     for loc in locales:
         tree = project["data"].get((ns, loc))
         node = model.lookup(tree, path) if tree is not None else None
